@@ -12,6 +12,7 @@ RULE = ("1-3 inputs plus a climatology file with its own coverage, missingness, 
         "the climatology never shows up as a column, and -leg takes one entry per scored input. signature = (subtract|divide, "
         "metric, axis, climatology coverage class); non-trivial = the climatology removes >= 1 case and changes >= 1 value.")
 RULE += " " + '-obsrange (a range of OBSERVATION values, not anomalies) is in force in 40 % of the cases.'
+RULE += " " + 'Files with different observations in 40 % of the cases.'
 ASSUMPTIONS = ["shift-invariant scores: mae, rmse, bias, stderror, ef, within (functions of fcst - obs per case only)"]
 REQUIRED_COUNTERS = ["cells_compared", "other_field_cells", "csv_tables", "metamorphic_pairs", "header_checks"]
 ANCHOR_FUNCS = ["Data.get_scores", "Data._get_score"]
